@@ -119,7 +119,9 @@ def model_cases(draw, tier="quick"):
             "P": draw(gen.mat(N, par_dim(dom), -1, 1)), "d": draw(gen.vec(par_dim(ran), -2, 2)),
             "argname": draw(st.sampled_from(["x", "u", "theta"])),
             # the user's functions written as plain array expressions: geometry-carrying arrays pass through their arithmetic
-            "raw_ops": draw(st.booleans())}
+            "raw_ops": draw(st.booleans()),
+            # memory layout of the matrix of a matrix-backed linear model and of the parameter vectors handed to it
+            "layout": draw(st.sampled_from(gen.LAYOUTS))}
 
 
 def fun_shape(s):
@@ -175,7 +177,7 @@ def build(c):
     elif k == "noderiv":
         model = cuqi.model.Model(fwd, ran, dom)
     elif k == "lin_matrix":
-        model = cuqi.model.LinearModel(B, range_geometry=ran, domain_geometry=dom)
+        model = cuqi.model.LinearModel(gen.relayout(B, c.get("layout", "plain")), range_geometry=ran, domain_geometry=dom)
     else:
         model = cuqi.model.LinearModel(fwd, lambda y: (B.T @ np.asarray(y).reshape(-1)).reshape(dshape),
                                        range_geometry=ran, domain_geometry=dom)
@@ -195,7 +197,7 @@ def run_forward(c, rec):
         return
     model, dom, ran, F = must(lambda: build(c), "constructing the model")
     P = A(c["P"]).T
-    p = P[:, 0].copy()
+    p = gen.relayout(P[:, 0], c.get("layout", "plain"))
     f = ref_par2fun(c["dom"], p)
     y0 = np.asarray(ref_fun2par(c["ran"], F(f)), dtype=float)
     require(y0.shape == (par_dim(c["ran"]),), "harness: reference output shape")
